@@ -328,13 +328,12 @@ def readSize (cur : Nat) (value : Text) (s : IStream) : Nat × Text × IStream :
   let (value, s) := getlineStr value s
   (parseSize cur value, value, s)
 
-/-- the loop reading QUAL: `for (j = 0; j < qual_size && j < n; j++) { size_t who; … }`
-    (`who` is not initialised in the library: a blank line would leave it undefined; the model
-    takes 0) -/
+/-- the loop reading QUAL: `for (j = 0; j < qual_size && j < n; j++) { size_t who = n; … }`
+    (a blank or missing line leaves `who = n`, so the test `who >= n` throws) -/
 def readQual (n : Nat) : Nat → Text → IStream → Except Err (List Nat × Text × IStream)
   | 0, value, s => .ok ([], value, s)
   | k+1, value, s =>
-    let (who, value, s) := readSize 0 value s
+    let (who, value, s) := readSize n value s
     if who ≥ n then .error .invalidArgument
     else match readQual n k value s with
       | .error e => .error e
